@@ -498,7 +498,7 @@ def read_xlsx(path):
                 if not m:
                     out['skipped'] += 1
                     continue
-                cell = {'sh': name, 'col': col_index(m.group(1)), 'row': int(m.group(2))}
+                cell = {'sh': name, 'col': col_index(m.group(1)), 'row': int(m.group(2)), 'raw': c.findtext(NS + 'v'), 'rawt': c.get('t', 'n')}
                 t = c.get('t', 'n')
                 style = int(c.get('s', '0') or 0)
                 fmt = xfs[style] if style < len(xfs) else 0
